@@ -1,7 +1,7 @@
 #!/usr/bin/env python3
 """Mechanical generation for the Kani unit `ffi_glue_kani` (property C11).
 
-usage: gen_ffi_glue.py <repo> <out dir: .../ffi_glue/src>
+usage: gen_ffi_glue.py <repo> <out dir: .../ffi_glue/src> [quick|thorough]
 
 1. `rln/src/ffi.rs` of <repo>'s working tree is copied BYTE FOR BYTE to <out>/ffi.rs (the four glue macros, the
    `ProcessArg` impls, `Buffer` and its two conversions, every `extern "C"` function) and the harness module generated
@@ -75,8 +75,8 @@ pub type Result<T, E = Report> = std::result::Result<T, E>;
 /// Stand-in context: an opaque state word.  The API may move it anywhere.
 pub struct RLN { pub state: u64 }
 
-pub const MAXB: usize = 6;   // longest input buffer the harnesses build (the glue is loop free and length agnostic)
-pub const MAXW: usize = 3;   // most bytes a stub writes to one writer
+pub const MAXB: usize = @MAXB@;   // longest input buffer the harnesses build (the glue is loop free and length agnostic)
+pub const MAXW: usize = @MAXW@;   // most bytes a stub writes to one writer
 #[derive(Clone, Copy)]
 pub struct Call {
     pub method: u8, pub self_addr: usize, pub nargs: usize,
@@ -189,10 +189,10 @@ def split_top(s):
     return [x.strip() for x in out if x.strip()]
 
 
-def gen_public(src):
+def gen_public(src, maxb=6, maxw=3):
     m = RS.mask(src)
     items = RS.scan_items(src, m)
-    out = [PRELUDE]
+    out = [PRELUDE.replace('@MAXB@', str(maxb)).replace('@MAXW@', str(maxw))]
     methods, free, ids = [], [], {}
     for it in items:
         if it.kind != 'fn' or it.body_open < 0:
@@ -265,7 +265,7 @@ def gen_public(src):
     return '\n'.join(out)
 
 
-def gen_harness():
+def gen_harness(unwind=9):
     """The harness module: one proof harness per FFI entry point, clauses named from the property statement."""
     L = ['', '#[cfg(kani)]', '#[allow(unused_mut, unused_variables)]', 'mod verif_kani {', '    use super::*;', '    use crate::public::*;', '''
     fn reset() { unsafe { NCALLS = 0; LOG = [NO_CALL; 3]; } }
@@ -288,7 +288,7 @@ def gen_harness():
 ''']
     for (f, meth, ctxk, args, res) in FFI:
         A = lambda cl: 'concat!("%s", "/%s")' % (f, cl)
-        b = ['    #[kani::proof]', '    #[kani::unwind(%d)]' % 9, '    fn ffi_%s() {' % f, '        reset();']
+        b = ['    #[kani::proof]', '    #[kani::unwind(%d)]' % unwind, '    fn ffi_%s() {' % f, '        reset();']
         call_args = []
         if ctxk in ('mut', 'const'):
             b.append('        let s0: u64 = kani::any();')
@@ -359,11 +359,13 @@ def gen_harness():
 
 def main():
     repo, out = sys.argv[1], sys.argv[2]
+    tier = sys.argv[3] if len(sys.argv) > 3 else 'quick'
+    maxb, maxw = (6, 3) if tier == 'quick' else (14, 6)   # thorough: longer buffers (the glue does not look at them; the bound is on the data only)
     os.makedirs(out, exist_ok=True)
     ffi = open(os.path.join(repo, 'rln/src/ffi.rs')).read()
-    open(os.path.join(out, 'ffi.rs'), 'w').write(ffi + '\n' + gen_harness() + '\n')
+    open(os.path.join(out, 'ffi.rs'), 'w').write(ffi + '\n' + gen_harness(maxb + 3) + '\n')
     pub = open(os.path.join(repo, 'rln/src/public.rs')).read()
-    open(os.path.join(out, 'public.rs'), 'w').write(gen_public(pub))
+    open(os.path.join(out, 'public.rs'), 'w').write(gen_public(pub, maxb, maxw))
 
 
 if __name__ == '__main__':
